@@ -158,8 +158,6 @@ impl Repr {
     #[inline]
     pub fn as_sign_typed(&self) -> (Sign, TypedReprRef<'_>) {
         let (abs_capacity, sign) = self.sign_capacity();
-        #[cfg(dashu_verif)]
-        verif_cut(abs_capacity > 2);
 
         // SAFETY: the capacity is checked before accessing the fields.
         //         see the documentation for the `capacity` fields for invariants.
@@ -169,6 +167,8 @@ impl Repr {
                 1 | 2 => {
                     TypedReprRef::RefSmall(double_word(self.data.inline[0], self.data.inline[1]))
                 }
+                #[cfg(dashu_verif)]
+                _ if verif_cut() => unreachable_unchecked(),
                 _ => TypedReprRef::RefLarge(slice::from_raw_parts(
                     // need Rust 1.64 for const
                     self.data.heap.0,
@@ -187,8 +187,6 @@ impl Repr {
     #[inline]
     pub fn into_typed(self) -> TypedRepr {
         debug_assert!(self.capacity.get() > 0);
-        #[cfg(dashu_verif)]
-        verif_cut(self.capacity.get() > 2);
 
         // SAFETY: the capacity is checked before accessing the fields.
         //         see the documentation for the `capacity` fields for invariants.
@@ -197,6 +195,8 @@ impl Repr {
                 0 => unreachable_unchecked(),
                 1 | 2 => TypedRepr::Small(double_word(self.data.inline[0], self.data.inline[1])),
                 _ => {
+                    #[cfg(dashu_verif)]
+                    verif_cut();
                     // SAFETY: An `Buffer` and `Repr` have the same layout
                     //     and we have made sure that the data is allocated on heap
                     TypedRepr::Large(mem::transmute(self))
@@ -229,8 +229,6 @@ impl Repr {
     /// Get a reference to the words in the `Repr`, together with the sign.
     pub fn as_sign_slice(&self) -> (Sign, &[Word]) {
         let (capacity, sign) = self.sign_capacity();
-        #[cfg(dashu_verif)]
-        verif_cut(capacity > 2);
 
         // SAFETY: the capacity is checked before accessing the fields.
         //         see the documentation for the `capacity` fields for invariants.
@@ -245,6 +243,8 @@ impl Repr {
                     }
                 }
                 2 => &self.data.inline,
+                #[cfg(dashu_verif)]
+                _ if verif_cut() => unreachable_unchecked(),
                 _ => slice::from_raw_parts(self.data.heap.0, self.data.heap.1),
             }
         };
@@ -356,8 +356,6 @@ impl Repr {
     /// Panics if the `capacity` is negative
     pub fn into_buffer(self) -> Buffer {
         debug_assert!(self.capacity.get() > 0); // invariant
-        #[cfg(dashu_verif)]
-        verif_cut(self.capacity.get() > 2);
 
         // SAFETY: the capacity is checked before accessing the union fields.
         //         see the documentation for the `capacity` fields for invariants.
@@ -379,6 +377,8 @@ impl Repr {
                     buffer
                 }
                 _ => {
+                    #[cfg(dashu_verif)]
+                    verif_cut();
                     // SAFETY: An `Buffer` and `Repr` have the same layout
                     //     and we have made sure that the data is allocated on heap
                     mem::transmute(self)
@@ -473,12 +473,13 @@ impl Repr {
 /// In every other configuration this function does nothing.
 #[cfg(dashu_verif)]
 #[inline(always)]
-const fn verif_cut(_is_heap: bool) {
+const fn verif_cut() -> bool {
+    // SAFETY: only compiled for the model checker, which reports reaching this point
     #[cfg(all(kani, dashu_verif_inline))]
-    if _is_heap {
-        // SAFETY: only compiled for the model checker, which reports reaching this point
-        unsafe { core::hint::assert_unchecked(false) }
+    unsafe {
+        core::hint::assert_unchecked(false)
     }
+    false
 }
 
 /// Verification hooks (only with `--cfg dashu_verif`): construct a `Repr` with an explicitly
@@ -568,8 +569,6 @@ impl Repr {
 impl Clone for Repr {
     fn clone(&self) -> Self {
         let (capacity, sign) = self.sign_capacity();
-        #[cfg(dashu_verif)]
-        verif_cut(capacity > 2);
 
         // SAFETY: see the comments inside the block
         let new = unsafe {
@@ -584,6 +583,8 @@ impl Clone for Repr {
                     capacity: NonZeroIsize::new_unchecked(capacity as isize),
                 }
             } else {
+                #[cfg(dashu_verif)]
+                verif_cut();
                 let (ptr, len) = self.data.heap;
                 // SAFETY: len is at least 2 when it's heap allocated (invariant of Repr)
                 let mut new_buffer = Buffer::allocate(len);
@@ -600,14 +601,14 @@ impl Clone for Repr {
     fn clone_from(&mut self, src: &Self) {
         let (src_cap, src_sign) = src.sign_capacity();
         let (cap, _) = self.sign_capacity();
-        #[cfg(dashu_verif)]
-        verif_cut(src_cap > 2 || cap > 2);
 
         // SAFETY: see the comments inside the block
         unsafe {
             // shortcut for inlined data
             if src_cap <= 2 {
                 if cap > 2 {
+                    #[cfg(dashu_verif)]
+                    verif_cut();
                     // release the old buffer if necessary
                     // SAFETY: self.data.heap.0 must be valid pointer if cap > 2
                     Buffer::deallocate_raw(NonNull::new_unchecked(self.data.heap.0), cap);
@@ -617,6 +618,8 @@ impl Clone for Repr {
                 return;
             }
 
+            #[cfg(dashu_verif)]
+            verif_cut();
             // SAFETY: we checked that abs(src.capacity) > 2
             let (src_ptr, src_len) = src.data.heap;
             debug_assert!(src_len >= 3);
@@ -651,9 +654,9 @@ impl Clone for Repr {
 impl Drop for Repr {
     fn drop(&mut self) {
         let cap = self.capacity();
-        #[cfg(dashu_verif)]
-        verif_cut(cap > 2);
         if cap > 2 {
+            #[cfg(dashu_verif)]
+            verif_cut();
             // SAFETY: the data is heap allocated when abs(capacity) > 2 (invariant of Repr)
             unsafe {
                 Buffer::deallocate_raw(NonNull::new_unchecked(self.data.heap.0), cap);
